@@ -1,6 +1,385 @@
-//! C10 — not built yet.
-use crate::rt::*;
+//! C10 — RNS base tools meet their integer specifications.
+//!
+//! Workload A: `RNSBase` decompose/compose (+ `_array` variants and their transposed layouts)
+//! against the definition of CRT (native integers for the exhaustive small bases, `BigU`
+//! otherwise). Workload B: `RNSTool`, built through its public constructor exactly as a
+//! context builds it, every routine against its integer specification in exact arithmetic,
+//! *with* its documented error term (see `spec:` comments at each check).
+//!
+//! `BaseConverter` is a private type; `fast_convert_array` is reached through
+//! fastbconv_m_tilde / fast_floor / fastbconv_sk / decrypt_scale_and_round, and
+//! `exact_convey_array` through decrypt_mod_t.
 
-pub fn run(_cfg: &Cfg, _rep: &mut Report) -> PropMeta {
-    PropMeta { id: "C10", level: "exploration", rule: "not built", assumptions: vec![], exhaustive: false, floor: 1 }
+use crate::big::{centered, BigI, BigU};
+use crate::refm::{self, Crt};
+use crate::rt::*;
+use heathcliff::util::{NTTTables, RNSBase, RNSTool};
+use heathcliff::Modulus;
+use serde_json::{json, Value};
+use std::cmp::Ordering;
+
+const P: &str = "C10";
+const MT: u64 = 1u64 << 32; // m_tilde
+
+// ------------------------------------------------------------------ small helpers
+struct Cx<'a> { cfg: &'a Cfg, grp: &'a str, case: u64 }
+impl<'a> Cx<'a> {
+    fn viol(&self, rep: &mut Report, op: &str, class: &str, kind: &str, detail: String, info: Value) {
+        rep.violation(&format!("{}|{}|{}|{}", P, op, class, kind), format!("{}: {}", op, detail), replay_json(self.cfg, self.grp, self.case, info));
+    }
 }
+fn bu(x: u64) -> BigU { BigU::from_u64(x) }
+fn to_i(x: &BigU) -> BigI { BigI::from_u(x.clone()) }
+fn bi(x: i64) -> BigI { BigI::from_i64(x) }
+fn dec(v: &[BigU]) -> Vec<String> { v.iter().map(|x| x.to_dec()).collect() }
+fn deci(v: &[BigI]) -> Vec<String> { v.iter().map(|x| x.to_dec()).collect() }
+fn kcls(k: usize) -> &'static str { if k == 1 { "k=1" } else { "k>=2" } }
+
+/// uniform in [0, m) by rejection (no division)
+fn rand_below_big(rng: &mut Rng, m: &BigU) -> BigU {
+    if m.is_zero() { return BigU::zero(); }
+    let bits = m.bits();
+    let words = (bits + 63) / 64;
+    loop {
+        let mut v: Vec<u64> = (0..words).map(|_| rng.u64()).collect();
+        let top = bits % 64;
+        if top != 0 { v[words - 1] &= (1u64 << top) - 1; }
+        let x = BigU::from_limbs(&v);
+        if x.cmp_u(m) == Ordering::Less { return x; }
+    }
+}
+/// component-major layout: out[i*n + j] = vals[j] mod moduli[i]
+fn layout_u(vals: &[BigU], moduli: &[u64]) -> Vec<u64> {
+    let n = vals.len();
+    let mut out = vec![0u64; n * moduli.len()];
+    for (i, &m) in moduli.iter().enumerate() { for j in 0..n { out[i * n + j] = vals[j].rem_u64(m); } }
+    out
+}
+fn layout_i(vals: &[BigI], moduli: &[u64]) -> Vec<u64> {
+    let n = vals.len();
+    let mut out = vec![0u64; n * moduli.len()];
+    for (i, &m) in moduli.iter().enumerate() { for j in 0..n { out[i * n + j] = vals[j].mod_u64(m); } }
+    out
+}
+fn column(data: &[u64], n: usize, comps: usize, j: usize) -> Vec<u64> { (0..comps).map(|i| data[i * n + j]).collect() }
+
+/// find a in [0,k) with obs[i] == (base[i] +/- a*step[i]) mod ms[i] for every i
+fn find_offset(obs: &[u64], ms: &[u64], base: &[u64], step: &[u64], k: usize, neg: bool) -> Option<usize> {
+    'a: for a in 0..k {
+        for i in 0..ms.len() {
+            let m = ms[i] as u128;
+            let s = (a as u128 * (step[i] as u128 % m)) % m;
+            let want = if neg { (base[i] as u128 % m + m - s) % m } else { (base[i] as u128 % m + s) % m };
+            if obs[i] as u128 != want { continue 'a; }
+        }
+        return Some(a);
+    }
+    None
+}
+fn pairwise_coprime_with(v: u64, others: &[u64]) -> bool { others.iter().all(|&o| refm::gcd(v, o) == 1) }
+
+fn make_base(cx: &Cx, rep: &mut Report, qs: &[u64], class: &str) -> Option<RNSBase> {
+    let r = lib(|| { let ms: Vec<Modulus> = qs.iter().map(|&q| Modulus::new(q)).collect(); RNSBase::new(&ms) });
+    match r {
+        Ok(Ok(b)) => Some(b),
+        Ok(Err(e)) => { cx.viol(rep, "RNSBase::new", class, "refused", format!("pairwise coprime base {:?} refused: {}", qs, e), json!({"moduli": qs})); None }
+        Err(p) => { cx.viol(rep, "RNSBase::new", class, "panic", format!("base {:?}: {}", qs, p.0), json!({"moduli": qs})); None }
+    }
+}
+
+/// spec: base_prod = Q, punctured_prod[i] = Q/q_i, inv_punctured_prod_mod_base[i] = (Q/q_i)^-1 mod q_i
+fn check_initialize(cx: &Cx, rep: &mut Report, base: &RNSBase, qs: &[u64], big_q: &BigU, class: &str) {
+    let k = qs.len();
+    rep.count("routine", "RNSBase::initialize");
+    let info = json!({"moduli": qs});
+    if base.base_prod() != &big_q.to_limbs(k)[..] {
+        cx.viol(rep, "RNSBase::initialize", class, "value", format!("base_prod {:?} != product {} of {:?}", base.base_prod(), big_q.to_dec(), qs), info.clone());
+    }
+    for i in 0..k {
+        let p = big_q.div(&bu(qs[i]));
+        let got = BigU::from_limbs(&base.punctured_prod()[i]);
+        if got != p { cx.viol(rep, "RNSBase::initialize", class, "value", format!("punctured_prod[{}] = {} expected {} for {:?}", i, got.to_dec(), p.to_dec(), qs), info.clone()); }
+        let inv = refm::invmod(p.rem_u64(qs[i]), qs[i]).expect("coprime");
+        let op = &base.inv_punctured_prod_mod_base()[i];
+        let want_quot = (((inv as u128) << 64) / qs[i] as u128) as u64;
+        if op.operand != inv || op.quotient != want_quot {
+            cx.viol(rep, "RNSBase::initialize", class, "value", format!("inv_punctured_prod[{}] = ({},{}) expected ({},{}) for {:?}", i, op.operand, op.quotient, inv, want_quot, qs), info.clone());
+        }
+    }
+}
+
+// ================================================================== Workload A
+/// every pairwise-coprime subset of {2,3,4,5,7,9,11,13} with product <= 2^16, in ascending,
+/// descending and one mixed order
+fn exhaustive_family() -> Vec<(Vec<u64>, &'static str)> {
+    let s = [2u64, 3, 4, 5, 7, 9, 11, 13];
+    let mut fam: Vec<(Vec<u64>, &'static str)> = vec![];
+    for mask in 1u32..256 {
+        let sub: Vec<u64> = (0..8).filter(|b| mask >> b & 1 == 1).map(|b| s[b]).collect();
+        let mut ok = true;
+        for a in 0..sub.len() { for b in 0..a { if refm::gcd(sub[a], sub[b]) != 1 { ok = false; } } }
+        let prod: u64 = sub.iter().product();
+        if !ok || prod > 1 << 16 { continue; }
+        fam.push((sub.clone(), "asc"));
+        if sub.len() >= 2 { let mut d = sub.clone(); d.reverse(); fam.push((d, "desc")); }
+        if sub.len() >= 3 {
+            // mixed: middle-out interleave
+            let mut m = vec![]; let (mut lo, mut hi) = (0usize, sub.len() - 1);
+            let mut flip = true;
+            while lo <= hi { if flip { m.push(sub[hi]); if hi == 0 { break; } hi -= 1; } else { m.push(sub[lo]); lo += 1; } flip = !flip; }
+            m.rotate_left(1);
+            fam.push((m, "mixed"));
+        }
+    }
+    fam
+}
+
+fn a_exhaustive_case(cx: &Cx, rep: &mut Report, qs: &[u64], order: &str) {
+    let k = qs.len();
+    let q: u64 = qs.iter().product();
+    let class = &format!("{},exhaustive", kcls(k));
+    let Some(base) = make_base(cx, rep, qs, class) else { return };
+    check_initialize(cx, rep, &base, qs, &bu(q), class);
+    rep.count("A_base_size", &format!("{}", k));
+    rep.count("A_order", order);
+    for &m in qs { rep.count("A_modulus_bits", &format!("{:02}", refm::bit_len(m))); }
+    let info = json!({"moduli": qs});
+    let progress = std::cell::Cell::new(0u64);
+    // ---- (1) every integer below the product: decompose == residues, compose(residues) == x
+    let r = lib(|| {
+        let mut bad: Vec<(String, String)> = vec![];
+        for x in 0..q {
+            progress.set(x);
+            let mut v = vec![0u64; k]; v[0] = x;
+            base.decompose(&mut v);
+            let want: Vec<u64> = qs.iter().map(|&m| x % m).collect();
+            if v != want && bad.len() < 3 { bad.push(("decompose".into(), format!("decompose({}) = {:?}, expected {:?}, base {:?}", x, v, want, qs))); }
+            let mut w = want.clone();
+            base.compose(&mut w);
+            let mut wx = vec![0u64; k]; wx[0] = x;
+            if w != wx && bad.len() < 3 { bad.push(("compose".into(), format!("compose({:?}) = {:?}, expected {}, base {:?}", want, w, x, qs))); }
+        }
+        bad
+    });
+    match r {
+        Ok(bad) => for (op, d) in bad { cx.viol(rep, &format!("RNSBase::{}", op), class, "value", d, info.clone()); },
+        Err(p) => cx.viol(rep, "RNSBase::decompose/compose", class, "panic", format!("x={} base {:?}: {}", progress.get(), qs, p.0), info.clone()),
+    }
+    // ---- (2) every residue vector (odometer): compose gives the unique y < Q with y mod q_i = r_i; decompose inverts it
+    let r = lib(|| {
+        let mut bad: Vec<String> = vec![];
+        let mut r = vec![0u64; k];
+        let mut seen = 0u64;
+        loop {
+            seen += 1;
+            let mut y = r.clone();
+            base.compose(&mut y);
+            let hi_zero = y[1..].iter().all(|&w| w == 0);
+            let okc = hi_zero && y[0] < q && (0..k).all(|i| y[0] % qs[i] == r[i]);
+            if !okc && bad.len() < 3 { bad.push(format!("compose({:?}) = {:?} is not the CRT solution, base {:?}", r, y, qs)); }
+            let mut back = y.clone();
+            base.decompose(&mut back);
+            if okc && back != r && bad.len() < 3 { bad.push(format!("decompose(compose({:?})) = {:?}, base {:?}", r, back, qs)); }
+            // next vector
+            let mut i = 0;
+            loop { if i == k { return (bad, seen); } r[i] += 1; if r[i] < qs[i] { break; } r[i] = 0; i += 1; }
+        }
+    });
+    match r {
+        Ok((bad, seen)) => { if seen != q { rep.harness_errors.push(format!("odometer count {} != {}", seen, q)); } for d in bad { cx.viol(rep, "RNSBase::compose", class, "value", d, info.clone()); } }
+        Err(p) => cx.viol(rep, "RNSBase::compose", class, "panic", format!("residue enumeration, base {:?}: {}", qs, p.0), info.clone()),
+    }
+    // ---- (3) array variants over all values at once (value-major in, component-major out) and back;
+    //          plus a short reversed batch so that count != anything special
+    for pass in 0..2 {
+        let vals: Vec<u64> = if pass == 0 { (0..q).collect() } else { (0..q.min(7)).rev().collect() };
+        let count = vals.len();
+        let mut arr = vec![0u64; count * k];
+        for (j, &x) in vals.iter().enumerate() { arr[j * k] = x; }
+        let orig = arr.clone();
+        let mut want = vec![0u64; count * k];
+        for i in 0..k { for j in 0..count { want[i * count + j] = vals[j] % qs[i]; } }
+        match lib(|| { let mut a = arr.clone(); base.decompose_array(&mut a); a }) {
+            Ok(a) => if a != want {
+                let pos = (0..a.len()).find(|&p| a[p] != want[p]).unwrap();
+                cx.viol(rep, "RNSBase::decompose_array", class, "value", format!("count={} first mismatch at index {} (component {}, value index {}): got {} expected {}, base {:?}", count, pos, pos / count, pos % count, a[pos], want[pos], qs), info.clone());
+            },
+            Err(p) => cx.viol(rep, "RNSBase::decompose_array", class, "panic", format!("count={} base {:?}: {}", count, qs, p.0), info.clone()),
+        }
+        match lib(|| { let mut a = want.clone(); base.compose_array(&mut a); a }) {
+            Ok(a) => if a != orig {
+                let pos = (0..a.len()).find(|&p| a[p] != orig[p]).unwrap();
+                cx.viol(rep, "RNSBase::compose_array", class, "value", format!("count={} first mismatch at word {} (value index {}): got {} expected {}, base {:?}", count, pos, pos / k, a[pos], orig[pos], qs), info.clone());
+            },
+            Err(p) => cx.viol(rep, "RNSBase::compose_array", class, "panic", format!("count={} base {:?}: {}", count, qs, p.0), info.clone()),
+        }
+        arr.clear();
+    }
+    for op in ["RNSBase::decompose", "RNSBase::compose", "RNSBase::decompose_array", "RNSBase::compose_array"] { rep.count_n("routine", op, q); }
+    rep.count_n("A_values", "exhaustive", q);
+    rep.evals(q);
+    rep.distinct_key(&format!("A-exh-{:?}", qs));
+    if cx.case == 40 {
+        let x = q - 1;
+        rep.sample(json!({"group": cx.grp, "moduli": qs, "product": q, "exhaustive": true, "example_x": x,
+            "decompose(x)": qs.iter().map(|&m| x % m).collect::<Vec<_>>(), "compose(decompose(x))": x}));
+    }
+}
+
+fn gen_modulus(rng: &mut Rng, bits: u32, have: &[u64]) -> Option<(u64, &'static str)> {
+    let top = 1u64 << (bits - 1);
+    for _ in 0..200 {
+        let kind = rng.below(10);
+        let (v, name) = match kind {
+            0..=3 => { // prime
+                let mut v = (rng.bits(bits) | top | 1).max(2);
+                if bits == 2 { v = *rng.pick(&[2u64, 3]); }
+                let mut guard = 0;
+                while !refm::is_prime(v) && guard < 5000 { v += if v == 2 { 1 } else { 2 }; guard += 1; }
+                if v >> bits != 0 || !refm::is_prime(v) { continue; }
+                (v, "prime")
+            }
+            4 => (top.max(2), "pow2"),
+            5 => (((1u64 << bits) - 1).max(2), "2^b-1"),
+            _ => ((rng.bits(bits) | top).max(2), "random"),
+        };
+        if refm::bit_len(v) as u32 != bits { continue; }
+        if pairwise_coprime_with(v, have) { return Some((v, if name == "random" && refm::is_prime(v) { "prime" } else if name == "random" { "composite" } else { name })); }
+    }
+    None
+}
+
+fn a_boundary_values(rng: &mut Rng, qs: &[u64], big_q: &BigU) -> Vec<(BigU, &'static str)> {
+    let mut out: Vec<(BigU, &'static str)> = vec![];
+    let one = BigU::one();
+    let mut push = |v: BigU, c: &'static str, out: &mut Vec<(BigU, &'static str)>| { if v.cmp_u(big_q) == Ordering::Less { out.push((v, c)); } };
+    push(BigU::zero(), "0", &mut out);
+    push(one.clone(), "1", &mut out);
+    push(big_q.sub(&one), "Q-1", &mut out);
+    push(big_q.shr(1), "floor(Q/2)", &mut out);
+    push(big_q.add(&one).shr(1), "ceil(Q/2)", &mut out);
+    for &q in qs {
+        let cof = big_q.div(&bu(q)); // Q / q_i
+        let mut ms = vec![one.clone()];
+        if cof.cmp_u(&one) == Ordering::Greater { ms.push(cof.sub(&one)); ms.push(rand_below_big(rng, &cof)); }
+        for m in ms {
+            if m.is_zero() { continue; }
+            let v = m.mul_u64(q);
+            push(v.add(&one), "m*qi+1", &mut out);
+            push(v.sub(&one), "m*qi-1", &mut out);
+            push(v, "m*qi", &mut out);
+        }
+    }
+    for w in 1..qs.len() {
+        let p = BigU::pow2(64 * w);
+        push(p.sub(&one), "2^64j-1", &mut out);
+        push(p.add(&one), "2^64j+1", &mut out);
+        push(p, "2^64j", &mut out);
+    }
+    out
+}
+
+fn a_big_case(cx: &Cx, rng: &mut Rng, rep: &mut Report) {
+    let k = rng.range(1, 8) as usize;
+    // bit profile
+    let profile = rng.below(5);
+    let mut qs: Vec<u64> = vec![];
+    let mut kinds: Vec<&'static str> = vec![];
+    for _ in 0..k {
+        let bits = match profile { 0 => rng.range(2, 61), 1 => rng.range(50, 61), 2 => 61, 3 => rng.range(2, 20), _ => *rng.pick(&[2u64, 3, 31, 32, 33, 59, 60, 61]) } as u32;
+        let mut got = gen_modulus(rng, bits, &qs);
+        let mut tries = 0;
+        while got.is_none() && tries < 50 { got = gen_modulus(rng, rng.range(2, 61) as u32, &qs); tries += 1; }
+        let Some((v, kind)) = got else { break };
+        qs.push(v); kinds.push(kind);
+    }
+    if qs.is_empty() { rep.out_of_precondition += 1; return; }
+    let k = qs.len();
+    let order = match rng.below(3) {
+        0 => { let mut idx: Vec<usize> = (0..k).collect(); idx.sort_by_key(|&i| qs[i]); qs = idx.iter().map(|&i| qs[i]).collect(); kinds = idx.iter().map(|&i| kinds[i]).collect(); "asc" }
+        1 => { let mut idx: Vec<usize> = (0..k).collect(); idx.sort_by_key(|&i| std::cmp::Reverse(qs[i])); qs = idx.iter().map(|&i| qs[i]).collect(); kinds = idx.iter().map(|&i| kinds[i]).collect(); "desc" }
+        _ => "mixed",
+    };
+    let class = &format!("{},sampled", kcls(k));
+    let Some(base) = make_base(cx, rep, &qs, class) else { return };
+    let crt = Crt::new(&qs).expect("pairwise coprime");
+    let big_q = crt.big_q.clone();
+    check_initialize(cx, rep, &base, &qs, &big_q, class);
+    rep.count("A_base_size", &format!("{}", k));
+    rep.count("A_order", order);
+    for (i, &m) in qs.iter().enumerate() { rep.count("A_modulus_bits", &format!("{:02}", refm::bit_len(m))); rep.count("A_modulus_kind", kinds[i]); }
+    let info = json!({"moduli": qs});
+    let mut vals = a_boundary_values(rng, &qs, &big_q);
+    let n_rand = cx.cfg.pick(48, 96);
+    for _ in 0..n_rand { vals.push((rand_below_big(rng, &big_q), "random")); }
+    // small products: everything
+    if big_q.bits() <= 12 { let q = big_q.low_u64(); vals = (0..q).map(|x| (bu(x), "all")).collect(); }
+    // ---- single-value API
+    let mut residues: Vec<Vec<u64>> = vec![];
+    for (x, vc) in &vals {
+        let words = x.to_limbs(k);
+        let want: Vec<u64> = qs.iter().map(|&m| x.rem_u64(m)).collect();
+        match lib(|| { let mut v = words.clone(); base.decompose(&mut v); v }) {
+            Ok(v) => if v != want { cx.viol(rep, "RNSBase::decompose", class, "value", format!("decompose({}) = {:?}, expected {:?}, base {:?}", x.to_dec(), v, want, qs), info.clone()); },
+            Err(p) => cx.viol(rep, "RNSBase::decompose", class, "panic", format!("x={} base {:?}: {}", x.to_dec(), qs, p.0), info.clone()),
+        }
+        match lib(|| { let mut v = want.clone(); base.compose(&mut v); v }) {
+            Ok(v) => if v != words { cx.viol(rep, "RNSBase::compose", class, "value", format!("compose({:?}) = {} expected {}, base {:?}", want, BigU::from_limbs(&v).to_dec(), x.to_dec(), qs), info.clone()); },
+            Err(p) => cx.viol(rep, "RNSBase::compose", class, "panic", format!("residues {:?} base {:?}: {}", want, qs, p.0), info.clone()),
+        }
+        rep.count("A_values", vc);
+        residues.push(want);
+    }
+    // ---- independent residue vectors: compose -> unique y < Q with the residues; decompose inverts
+    for _ in 0..cx.cfg.pick(24, 48) {
+        let r: Vec<u64> = qs.iter().map(|&m| match rng.below(6) { 0 => 0, 1 => m - 1, _ => rng.below(m) }).collect();
+        let want = crt.compose(&r);
+        match lib(|| { let mut v = r.clone(); base.compose(&mut v); let y = v.clone(); base.decompose(&mut v); (y, v) }) {
+            Ok((y, back)) => {
+                let by = BigU::from_limbs(&y);
+                let def_ok = by.cmp_u(&big_q) == Ordering::Less && (0..k).all(|i| by.rem_u64(qs[i]) == r[i]);
+                if !def_ok || by != want { cx.viol(rep, "RNSBase::compose", class, "value", format!("compose({:?}) = {} expected {}, base {:?}", r, by.to_dec(), want.to_dec(), qs), info.clone()); }
+                else if back != r { cx.viol(rep, "RNSBase::decompose", class, "value", format!("decompose(compose({:?})) = {:?}, base {:?}", r, back, qs), info.clone()); }
+            }
+            Err(p) => cx.viol(rep, "RNSBase::compose", class, "panic", format!("residues {:?} base {:?}: {}", r, qs, p.0), info.clone()),
+        }
+        rep.count("A_values", "random_residue_vector");
+    }
+    // ---- array API: all values in one batch and a few odd batch sizes
+    let total = vals.len();
+    let mut batches: Vec<(usize, usize)> = vec![(0, total)];
+    for &c in &[1usize, 2, 3, k, k + 1] { if c <= total { let s = rng.usize_below(total - c + 1); batches.push((s, c)); } }
+    for (s, count) in batches {
+        let mut arr = vec![0u64; count * k];
+        let mut want = vec![0u64; count * k];
+        for j in 0..count { arr[j * k..(j + 1) * k].copy_from_slice(&vals[s + j].0.to_limbs(k)); for i in 0..k { want[i * count + j] = residues[s + j][i]; } }
+        match lib(|| { let mut a = arr.clone(); base.decompose_array(&mut a); a }) {
+            Ok(a) => if a != want {
+                let pos = (0..a.len()).find(|&p| a[p] != want[p]).unwrap();
+                cx.viol(rep, "RNSBase::decompose_array", class, "value", format!("count={} mismatch at index {} (component {}, value {} = {}): got {} expected {}, base {:?}", count, pos, pos / count, pos % count, vals[s + pos % count].0.to_dec(), a[pos], want[pos], qs), info.clone());
+            },
+            Err(p) => cx.viol(rep, "RNSBase::decompose_array", class, "panic", format!("count={} base {:?}: {}", count, qs, p.0), info.clone()),
+        }
+        match lib(|| { let mut a = want.clone(); base.compose_array(&mut a); a }) {
+            Ok(a) => if a != arr {
+                let pos = (0..a.len()).find(|&p| a[p] != arr[p]).unwrap();
+                cx.viol(rep, "RNSBase::compose_array", class, "value", format!("count={} mismatch at word {} (value {} = {}): got {} expected {}, base {:?}", count, pos, pos / k, vals[s + pos / k].0.to_dec(), a[pos], arr[pos], qs), info.clone());
+            },
+            Err(p) => cx.viol(rep, "RNSBase::compose_array", class, "panic", format!("count={} base {:?}: {}", count, qs, p.0), info.clone()),
+        }
+        rep.count_n("routine", "RNSBase::decompose_array", count as u64);
+        rep.count_n("routine", "RNSBase::compose_array", count as u64);
+    }
+    rep.count_n("routine", "RNSBase::decompose", total as u64);
+    rep.count_n("routine", "RNSBase::compose", total as u64);
+    rep.evals(total as u64);
+    let bits: Vec<usize> = qs.iter().map(|&m| refm::bit_len(m)).collect();
+    rep.distinct_key(&format!("A-big-k{}-{}-{:?}", k, order, bits));
+    if cx.case == 0 {
+        let (x, _) = &vals[vals.len() - 1];
+        rep.sample(json!({"group": cx.grp, "moduli": qs, "product": big_q.to_dec(), "x": x.to_dec(), "decompose(x)": residues[vals.len() - 1],
+            "compose(decompose(x))": x.to_dec(), "values_checked": total}));
+    }
+}
+
+include!("c10_b.inc");
